@@ -739,8 +739,9 @@ def _run_call(eng, par, k, call, gen_mode):
         free_m("last consumer action")
     if eng.hang:
         rec["outcome"] = "hang"
-    eng.m_start("release", lambda: eng.gen_holder.clear())
-    eng.m_wait("release")
-    eng.m_result = None
+    if not eng.hang and eng.m_busy is None:
+        eng.m_start("release", lambda: eng.gen_holder.clear())
+        eng.m_wait("release")
+        eng.m_result = None
     eng.ev("call_end", outcome=rec["outcome"])
     return rec
